@@ -113,3 +113,7 @@ def gen(rng, tier, mult=1):
     for i in range(m):
         yield T.gen_transfer_case(rng, script_style=["abort", "abort", "faulty", "random"][i % 4], simple_cfg=True,
                                   bs_choices=[8, 16], fault=(i % 7 == 0))
+
+
+import http_common  # noqa: E402
+http_common.plug_http(globals(), ID)
